@@ -47,6 +47,16 @@ def one_case(ctx, index, rng: random.Random):
     if w is not None:
         kw["weights"] = w
     h = physt.h(rows, [e.copy() for e in edges], **kw)
+    if n >= 2 and rng.random() < 0.15:
+        # a parent that is the sum of parts whose axes were labelled differently: it reports default names (axis0, axis1, ...), and
+        # those are the names of its axes - for its projections, by index and by name, in one step or several
+        m_ = rng.randint(1, n - 1)
+        kw_a = {"axis_names": names, **({"weights": w[:m_]} if w is not None else {})}
+        kw_b = {"axis_names": [nm + "'" for nm in names], **({"weights": w[m_:]} if w is not None else {})}
+        with warnings.catch_warnings():
+            warnings.simplefilter("ignore")
+            h = physt.h(rows[:m_], [e.copy() for e in edges], **kw_a) + physt.h(rows[m_:], [e.copy() for e in edges], **kw_b)
+        names = list(h.axis_names)
     by_name = rng.random() < 0.5
     k = rng.randint(1, d - 1)
     axes = rng.sample(range(d), k)
@@ -95,8 +105,10 @@ def one_case(ctx, index, rng: random.Random):
         t = h.T
         tt = t.T
         with attach.quiet():
-            if snap.diff(snap.snapshot(h), snap.snapshot(tt)):
-                rec.fail(monitor="C09.chain", op="T.T", symptom="T.T differs from the original", diff=sorted(snap.diff(snap.snapshot(h), snap.snapshot(tt))), detail=desc)
+            # (the raw metadata entry behind unlabelled axes may read None or the default names: what the histogram reports is compared)
+            dd_ = snap.diff(snap.snapshot(h), snap.snapshot(tt), ignore=("meta_data",))
+            if dd_ or not (tt == h):
+                rec.fail(monitor="C09.chain", op="T.T", symptom="T.T differs from the original", diff=sorted(dd_) or ["eq"], detail=desc)
     ax = rng.randrange(d)
     h.accumulate(names[ax] if rng.random() < 0.5 else ax)
     narrow = None
@@ -198,7 +210,34 @@ def detached_case(ctx, index, rng: random.Random):
     structure.detached_workload(ctx, index, rng, prop="C09", monitor="C09.chain")
 
 
+def unbounded_T_case(ctx, index, rng: random.Random):
+    """T.T == original also for a histogram whose outer bins are unbounded (edges -inf / +inf: 'everything below', 'everything above')."""
+    from physt.histogram_nd import Histogram2D
+
+    rec = ctx.rec
+    rec.mon("C09.chain")
+    ex = [-np.inf, -1.0, 0.0, 1.0, np.inf] if rng.random() < 0.7 else [0.0, 1.0, 2.5, np.inf]
+    ey = [0.0, 1.0, 2.0] if rng.random() < 0.5 else [-np.inf, 0.0, np.inf]
+    f = np.array([[rng.randint(0, 9) for _ in range(len(ey) - 1)] for _ in range(len(ex) - 1)])
+    try:
+        h = Histogram2D([np.array(ex), np.array(ey)], f, axis_names=["u", "v"])
+        with warnings.catch_warnings():
+            warnings.simplefilter("ignore")
+            with np.errstate(all="ignore"):
+                t = h.T
+                tt = t.T
+                same = bool(tt == h)
+                swapped = np.array_equal(np.asarray(t.frequencies), f.T) and tuple(t.axis_names) == ("v", "u")
+    except Exception as e:
+        rec.case(["unbounded", ex, ey], False, cls="unbounded_T/raised")
+        return
+    if not same or not swapped:
+        rec.fail(monitor="C09.chain", op="T.T", symptom="T.T differs from the original", diff=["eq"], detail={"edges": [ex, ey], "T_swapped": bool(swapped), "T.T == h": same})
+    rec.case(["unbounded", ex, ey, f.tolist()], True, cls="unbounded_T")
+
+
 def run(ctx):
+    ctx.run_cases(ctx.scale(20, 100), unbounded_T_case, salt="unbounded")
     attach_monitors()
     ctx.run_cases(ctx.scale(120, 800), detached_case, salt="detached")
     ctx.run_cases(ctx.scale(400, 3500), one_case)
